@@ -19,7 +19,7 @@ for c, r, l in zip(cl, rust, lean):
     cnt[" ".join(r.split(" ")[:2]) if r.startswith("err") else r.split(" ")[0]] += 1
     if v:
         verd[v[:80]] += 1
-    if r != lo:
+    if r != lo and not lo.startswith("skip"):
         diffs.append((c, r, lo))
 print(f"{stream}: cases={len([c for c in cl if c])} rust={dict(cnt)} diffs={len(diffs)} rustlines={len(rust)} leanlines={len(lean)}")
 for k, v in verd.items():
